@@ -229,9 +229,10 @@ class Proxy(object):
     def _pyroInvoke(self, methodname, vargs, kwargs, flags=0, objectId=None):
         """perform the remote method call communication"""
         self.__check_owner()
-        current_context.response_annotations = {}
         if self._pyroConnection is None:
             self.__pyroCreateConnection()
+        # (after connecting: the annotations of a handshake answer are not those of this call's reply)
+        current_context.response_annotations = {}
         serializer = serializers.serializers[self._pyroSerializer or config.SERIALIZER]
         objectId = objectId or self._pyroConnection.objectId
         annotations = current_context.annotations
